@@ -7,7 +7,7 @@ import ast
 from .. import AnalysisError, flow
 from ..fold import is_unknown
 from ..srcmodel import walk_local, norm, dotted, guards, enclosing_stmt
-from . import common
+from . import common, forward
 from .c15 import alias_roots
 
 META = {
@@ -20,7 +20,7 @@ META = {
         "alike (sibling rule); one writerow per tract in iteration order, "
         "header iff not (file exists and mode 'a') in both writers; header "
         "construction works on a fresh list. csv quoting is not decided."),
-    'families': ['TBL', 'EXC', 'SIB', 'ESCAPE'],
+    'families': ['TBL', 'EXC', 'SIB', 'ESCAPE', 'FORWARD', 'DEADPARAM', 'SIB-DEFAULTS'],
 }
 
 
@@ -103,6 +103,7 @@ def check(ctx):
     ctx.attempt(_scrubbers)
     ctx.attempt(_writers)
     ctx.attempt(_headers)
+    ctx.attempt(forward.check_all, module_suffixes=('containers.containers', 'tractwriter.tractwriter', 'plssdesc.plssdesc'))
 
 
 def _join_sites(fi):
